@@ -14,7 +14,7 @@ import (
 //verif:run thorough n=4..5
 func VerifC14B1t8RoundTrip(n int) {
 	src := verifBytes("src", n)
-	dst := make(trinary.Trits, EncodedLen(n))
+	dst := verifDirtyTrits("tdst0", EncodedLen(n))
 	w := Encode(dst, src)
 	verifAssert("enc.len", w == 8*n)
 	for i := 0; i < n; i++ {
@@ -22,7 +22,7 @@ func VerifC14B1t8RoundTrip(n int) {
 			verifAssert("enc.bit", dst[8*i+j] == int8((src[i]>>uint(j))&1))
 		}
 	}
-	back := make([]byte, n)
+	back := verifBytes("back0", n) // arbitrary previous content of the destination
 	k, err := Decode(back, dst)
 	verifAssert("dec.noerr", err == nil)
 	verifAssert("dec.count", k == n)
@@ -42,7 +42,7 @@ func VerifC14B1t8Decode(g, r int) {
 	for i := range src {
 		src[i] = int8(raw[i])
 	}
-	dst := make([]byte, g)
+	dst := verifBytes("dst0", g) // arbitrary previous content of the destination
 	k, err := Decode(dst, src)
 
 	// reference: first invalid trit (not 0/1) in order decides
@@ -63,7 +63,7 @@ func VerifC14B1t8Decode(g, r int) {
 	default:
 		verifAssert("dec.ok", err == nil && k == g)
 		// accepted input re-encodes to itself
-		re := make(trinary.Trits, n)
+		re := verifDirtyTrits("re0", n)
 		Encode(re, dst)
 		for i := 0; i < n; i++ {
 			verifAssert("dec.reencode", re[i] == src[i])
@@ -78,4 +78,14 @@ func VerifC14B1t8Decode(g, r int) {
 			verifAssert("dec.value", dst[i] == b)
 		}
 	}
+}
+
+// verifDirtyTrits: a destination buffer with arbitrary previous content (results must not depend on it)
+func verifDirtyTrits(name string, n int) trinary.Trits {
+	b := verifBytes(name, n)
+	t := make(trinary.Trits, n)
+	for i := range t {
+		t[i] = int8(b[i])
+	}
+	return t
 }
